@@ -187,11 +187,9 @@ impl NormalizingHasher {
         }
     }
 
-    pub(crate) fn done(mut self) -> Box<dyn DynDigest + Send> {
-        if self.text_mode && self.last_was_cr {
-            self.hasher.update(b"\n")
-        }
-
+    pub(crate) fn done(self) -> Box<dyn DynDigest + Send> {
+        // A lone CR at the very end of the data is not a line ending that gets normalized
+        // (same as `NormalizedReader` and `normalize_lines`), nothing is left to hash.
         self.hasher
     }
 
